@@ -14,16 +14,18 @@ namespace Fsel
 section TopN
 variable {K V : Type}
 
-/-- echelons in increasing key order -/
-abbrev Ech (K V : Type) := List (K × List V)
+/-- echelons in increasing key order.  Each stored value carries (as a ghost) the key it was inserted
+    with; the BTreeMap keeps the key of the echelon's first insertion.  The ghost keys never influence
+    the behaviour — they only make the abstraction function an equality. -/
+abbrev Ech (K V : Type) := List (K × List (K × V))
 
-/-- `echelons.entry(k).or_default().push(v)` under the order `le` (total preorder; `le a b ∧ le b a`
-    means "equal keys" for the BTreeMap) -/
+/-- `echelons.entry(k).or_default().push(v)` under the order `le` (a total preorder; `le a b ∧ le b a`
+    is what `Ord::cmp` reports as `Equal`) -/
 def Ech.push (le : K → K → Bool) (k : K) (v : V) : Ech K V → Ech K V
-  | [] => [(k, [v])]
+  | [] => [(k, [(k, v)])]
   | (k', vs) :: rest =>
-    if le k k' && le k' k then (k', vs ++ [v]) :: rest
-    else if le k k' then (k, [v]) :: (k', vs) :: rest
+    if le k k' && le k' k then (k', vs ++ [(k, v)]) :: rest
+    else if le k k' then (k, [(k, v)]) :: (k', vs) :: rest
     else (k', vs) :: Ech.push le k v rest
 
 /-- pop the last value of the greatest echelon, dropping the echelon when it becomes empty -/
@@ -31,6 +33,8 @@ def Ech.popLast : Ech K V → Ech K V
   | [] => []
   | [(k, vs)] => if vs.length ≤ 1 then [] else [(k, vs.dropLast)]
   | e :: rest => e :: Ech.popLast rest
+
+def Ech.flatten (e : Ech K V) : List (K × V) := e.flatMap (·.2)
 
 structure TopNState (K V : Type) where
   limit : Option Nat
@@ -49,7 +53,7 @@ def TopNState.insert (le : K → K → Bool) (t : TopNState K V) (k : K) (v : V)
   | none => { t with count := c, ech := e }
 
 /-- `TopN::values` -/
-def TopNState.values (t : TopNState K V) : List V := t.ech.flatMap (·.2)
+def TopNState.values (t : TopNState K V) : List V := t.ech.flatten.map (·.2)
 
 /-- abstract layer: stable insertion — after every element that is ≤ the new one -/
 def ins (le : K → K → Bool) (x : K × V) : List (K × V) → List (K × V)
@@ -77,47 +81,52 @@ def keyKind (e : Expr) : KeyKind :=
 
 def ordOfBool (lt eq : Bool) : Ordering := if lt then .lt else if eq then .eq else .gt
 
-/-- `cmp_at_numbers` (after the D12 fix): both sizes → integer order; otherwise real-number order
-    (`f64::total_cmp`), unparsable text counts as 0 -/
-def cmpNumbers (a b : Str) : Ordering :=
-  match parseFilesize a, parseFilesize b with
-  | some x, some y => ordOfBool (x < y) (x == y)
-  | sa, sb =>
-    let fa : Num := match sa with | some x => Num.mk x true | none => (parseF64? a).getD (Num.mk 0 true)
-    let fb : Num := match sb with | some x => Num.mk x true | none => (parseF64? b).getD (Num.mk 0 true)
-    -- total_cmp: -NaN < -inf < finite < +inf < +NaN (only +NaN can be parsed)
-    let rank (n : Num) : Int × Rat := match n with
-      | .ninf => (-1, 0) | .fin q _ => (0, q) | .inf => (1, 0) | .nan => (2, 0)
-    let (ra, qa) := rank fa
-    let (rb, qb) := rank fb
-    if ra < rb then .lt else if ra > rb then .gt else ordOfBool (qa < qb) (qa == qb)
-
-/-- `cmp_at_datetimes`: unparsable text counts as 1970-01-01 00:00:00 -/
-def cmpDatetimes (today : Int) (a b : Str) : Ordering :=
-  let f (s : Str) : Int := match parseDatetime today s with | .ok x _ => x | _ => 0
-  ordOfBool (f a < f b) (f a == f b)
-
-def cmpText (a b : Str) : Ordering := ordOfBool (strLt a b) (a == b)
-
 def ordRev : Ordering → Ordering
   | .lt => .gt | .gt => .lt | .eq => .eq
 
-/-- `Criteria::cmp`: lexicographic over the keys with per-key kind and direction -/
-def criteriaCmp (today : Int) (kinds : List KeyKind) (asc : List Bool) : List Str → List Str → Ordering
-  | a :: as, b :: bs =>
-    let k := kinds.headD .text
-    let d := asc.headD true
-    let o := match k with
-      | .numeric => cmpNumbers a b
-      | .datetime => cmpDatetimes today a b
-      | .text => cmpText a b
-    let o := if d then o else ordRev o
-    if o != .eq then o else criteriaCmp today kinds.tail asc.tail as bs
-  | [], [] => .eq
-  | [], _ :: _ => .lt
-  | _ :: _, [] => .gt
+/-- numeric sort rank (`cmp_at_numbers` after the D12 fix): sizes and parsable reals on one scale,
+    `-inf` below and `+inf`, `NaN` above everything finite (`f64::total_cmp`), unparsable text = 0.
+    Two sizes are compared as integers, which is the same order. -/
+def numRank (s : Str) : Int × Rat :=
+  match parseFilesize s with
+  | some x => (0, (x : Rat))
+  | none =>
+    match parseF64? s with
+    | some (.fin q _) => (0, q)
+    | some .ninf => (-1, 0)
+    | some .inf => (1, 0)
+    | some .nan => (2, 0)
+    | none => (0, 0)
+
+def rankLe (a b : Int × Rat) : Bool := decide (a.1 < b.1) || (decide (a.1 = b.1) && decide (a.2 ≤ b.2))
+
+/-- `cmp_at_datetimes`: unparsable text counts as 1970-01-01 00:00:00 -/
+def dtRank (today : Int) (s : Str) : Int := match parseDatetime today s with | .ok x _ => x | _ => 0
+
+def cmpText (a b : Str) : Ordering := ordOfBool (strLt a b) (a == b)
+
+/-- `≤` of one sort key according to its kind -/
+def keyLe (today : Int) (k : KeyKind) (a b : Str) : Bool :=
+  match k with
+  | .numeric => rankLe (numRank a) (numRank b)
+  | .datetime => decide (dtRank today a ≤ dtRank today b)
+  | .text => strLe a b
+
+/-- `Criteria::cmp ≠ Greater`: lexicographic over the keys with per-key kind and direction; a shorter
+    key list that is a prefix sorts first (`values.len().cmp`) -/
+def criteriaLeL (today : Int) : List KeyKind → List Bool → List Str → List Str → Bool
+  | ks, ds, a :: as, b :: bs =>
+    let k := ks.headD .text
+    let d := ds.headD true
+    let x := if d then a else b
+    let y := if d then b else a
+    if keyLe today k x y then
+      if keyLe today k y x then criteriaLeL today ks.tail ds.tail as bs else true
+    else false
+  | _, _, [], _ => true
+  | _, _, _ :: _, [] => false
 
 def criteriaLe (today : Int) (kinds : List KeyKind) (asc : List Bool) (a b : Criteria) : Bool :=
-  criteriaCmp today kinds asc a.values b.values != .gt
+  criteriaLeL today kinds asc a.values b.values
 
 end Fsel
